@@ -1106,7 +1106,10 @@ class SingleSiteDMRGEngine(DMRGEngine):
                 theta.ireplace_label('(p0.vR)', '(p1.vR)')
                 theta = npc.tensordot(next_A, theta, axes=['vR', 'vL'])
                 i0 = self.i0 - 1
-            qtotal_LR = [self.psi.get_B(i0, form=None).qtotal, self.psi.get_B(i0 + 1, form=None).qtotal]
+            # note that for diag_method='ED_all', the qtotal of theta may change;
+            # as in the two-site engine, absorb that change into the right tensor
+            old_BL_qtotal = self.psi.get_B(i0, form=None).qtotal
+            qtotal_LR = [old_BL_qtotal, theta.qtotal - old_BL_qtotal]
             U, S, VH, err, S_a = mixer.mixed_svd_2site(
                 engine=self, theta=theta, i0=i0, mix_left=update_LP, mix_right=update_RP, qtotal_LR=qtotal_LR
             )
